@@ -209,14 +209,31 @@ fn total_matches(got: Q, wants: &[Q], scale: f64, dp: Option<u32>) -> bool {
         if got == *w {
             return true;
         }
-        if let Some(d) = got.sub(*w) {
-            if f(d).abs() <= tol {
-                return true;
+        match got.sub(*w) {
+            Some(d) => {
+                if f(d).abs() <= tol {
+                    return true;
+                }
+            }
+            None => {
+                // the exact difference does not fit the model's i128 rationals (a 28-place decimal
+                // against a fraction with a 16-digit denominator): compare in floating point, which
+                // still separates every real deviation (a dropped, doubled or per-posting-rounded
+                // amount is >= 1e-6 of the scale) from the 1e-27 noise of the rates
+                if (f(got) - f(*w)).abs() <= scale.max(f(*w).abs()) * 1e-12 + 1e-15 {
+                    return true;
+                }
             }
         }
         let Some(dp) = dp else { continue };
         let Some(unit) = Q::from_parts(1, dp) else { continue };
-        let Some(scaled) = w.div(unit) else { continue };
+        let Some(scaled) = w.div(unit) else {
+            // model overflow: the reported value must at least be within half a unit of the total
+            if (f(got) - f(*w)).abs() <= 0.5 * 10f64.powi(-(dp as i32)) * (1.0 + 1e-9) + tol {
+                return true;
+            }
+            continue;
+        };
         let floor = scaled.n.div_euclid(scaled.d);
         let Some(frac) = scaled.sub(Q::int(floor)) else { continue };
         let near_tie = (f(frac) - 0.5).abs() <= tol * 10f64.powi(dp as i32);
